@@ -91,23 +91,29 @@ Definition set_gpsis (a : gargs) (g : list (list A)) : gargs :=
 Inductive hop :=
 | HCall (r : nat) (alias : bool) (T : A)   (* obj(arrays[r], T); alias = passed as the float64 array itself *)
 | HF (r : nat) (T : A)                     (* obj.f(arrays[r], T, *obj.args) *)
-| HSet (r : nat) (v : list A).             (* caller: arrays[r][:] = v *)
+| HSet (r : nat) (v : list A)              (* caller: arrays[r][:] = v *)
+| HSetRes (k : nat) (v : list A).          (* caller: rewrites in place the k-th array a call has returned *)
 
-Record hstate := mkH { h_arrays : list (list A); h_args : gargs }.
+(* the caller's composition arrays, the arrays returned so far (each `gamma = np.ones(x.size)` is a fresh
+   allocation, so a returned array is referenced by the caller only), the object *)
+Record hstate := mkH { h_arrays : list (list A); h_results : list (list A); h_args : gargs }.
 
 Definition hstep (f : wfun) (s : hstate) (o : hop) : hstate * option (res (list A)) :=
   match o with
-  | HSet r v => (mkH (upd (h_arrays s) r v) (h_args s), None)
+  | HSet r v => (mkH (upd (h_arrays s) r v) (h_results s) (h_args s), None)
+  | HSetRes k v => (mkH (h_arrays s) (upd (h_results s) k v) (h_args s), None)
   | HCall r alias T =>
       let x := nth r (h_arrays s) [] in
       match call f (if alias then XFloat64 x else XOther x) T (h_args s) with
-      | Ok c => (mkH (upd (h_arrays s) r (c_x c)) (set_gpsis (h_args s) (c_gpsis c)), Some (Ok (c_gamma c)))
+      | Ok c => (mkH (upd (h_arrays s) r (c_x c)) (h_results s ++ [c_gamma c]) (set_gpsis (h_args s) (c_gpsis c)),
+                 Some (Ok (c_gamma c)))
       | Err e => (s, Some (Err e))
       end
   | HF r T =>
       let x := nth r (h_arrays s) [] in
       match f_apply f x T (h_args s) with
-      | Ok w => (mkH (upd (h_arrays s) r (w_x w)) (set_gpsis (h_args s) (w_gpsis w)), Some (Ok (w_gamma w)))
+      | Ok w => (mkH (upd (h_arrays s) r (w_x w)) (h_results s ++ [w_gamma w]) (set_gpsis (h_args s) (w_gpsis w)),
+                 Some (Ok (w_gamma w)))
       | Err e => (s, Some (Err e))
       end
   end.
@@ -119,22 +125,48 @@ Fixpoint run_hist (f : wfun) (s : hstate) (ops : list hop) : hstate * list (opti
               let '(s2, outs) := run_hist f s1 t in (s2, out :: outs)
   end.
 
-(* what a state-free object answers: a function of the current content of the array and T only *)
+(* what a state-free object answers: a function of the current content of the array and T only;
+   the specification threads only what the caller owns (its arrays and the results it was handed) *)
 Definition gamma_of (f : wfun) (a : gargs) (x : list A) (T : A) : res (list A) :=
   match f_apply f x T a with Ok w => Ok (w_gamma w) | Err e => Err e end.
-Fixpoint spec_hist (f : wfun) (a : gargs) (arrays : list (list A)) (ops : list hop)
-  : list (option (res (list A))) :=
+Definition spec_step (f : wfun) (a : gargs) (st : list (list A) * list (list A)) (o : hop)
+  : (list (list A) * list (list A)) * option (res (list A)) :=
+  match o with
+  | HSet r v => ((upd (fst st) r v, snd st), None)
+  | HSetRes k v => ((fst st, upd (snd st) k v), None)
+  | HCall r _ T | HF r T =>
+      let g := gamma_of f a (nth r (fst st) []) T in
+      ((fst st, match g with Ok v => snd st ++ [v] | Err _ => snd st end), Some g)
+  end.
+Fixpoint spec_hist (f : wfun) (a : gargs) (st : list (list A) * list (list A)) (ops : list hop)
+  : (list (list A) * list (list A)) * list (option (res (list A))) :=
   match ops with
-  | [] => []
-  | HSet r v :: t => None :: spec_hist f a (upd arrays r v) t
-  | HCall r _ T :: t => Some (gamma_of f a (nth r arrays []) T) :: spec_hist f a arrays t
-  | HF r T :: t => Some (gamma_of f a (nth r arrays []) T) :: spec_hist f a arrays t
+  | [] => (st, [])
+  | o :: t => let '(st1, out) := spec_step f a st o in
+              let '(st2, outs) := spec_hist f a st1 t in (st2, out :: outs)
+  end.
+
+(* ---- histories on the ideal object (IdealActivityCoefficients, also the fallback of __new__):
+        __call__ allocates np.ones(len(xs)) at every call ---- *)
+Inductive iop := ICall (n : nat) | IF_ | ISetRes (k : nat) (v : list A).
+Definition istep (results : list (list A)) (o : iop) : list (list A) * option fval :=
+  match o with
+  | ICall n => let g := repeat (kq K 1) n in (results ++ [g], Some (FArray g))
+  | IF_ => (results, Some (FScalar ideal_f))
+  | ISetRes k v => (upd results k v, None)
+  end.
+Fixpoint run_ideal_hist (results : list (list A)) (ops : list iop) : list (list A) * list (option fval) :=
+  match ops with
+  | [] => (results, [])
+  | o :: t => let '(r1, out) := istep results o in
+              let '(r2, outs) := run_ideal_hist r1 t in (r2, out :: outs)
   end.
 End Classes.
 Arguments mkArgs {A I}. Arguments mkC {A}. Arguments c_gamma {A}. Arguments c_x {A}. Arguments c_gpsis {A}.
 Arguments XFloat64 {A}. Arguments XOther {A}. Arguments ObjIdeal {A I}. Arguments ObjGroup {A I}.
 Arguments FScalar {A}. Arguments FArray {A}.
-Arguments HCall {A}. Arguments HF {A}. Arguments HSet {A}. Arguments mkH {A I}. Arguments h_arrays {A I}. Arguments h_args {A I}.
+Arguments HCall {A}. Arguments HF {A}. Arguments HSet {A}. Arguments HSetRes {A}. Arguments mkH {A I}. Arguments h_arrays {A I}.
+Arguments h_results {A I}. Arguments h_args {A I}. Arguments ICall {A}. Arguments IF_ {A}. Arguments ISetRes {A}.
 
 (* ================= checkers for the correspondence (carrier option Q) ================= *)
 Fixpoint list_eqb2 {X Y} (eqb : X -> Y -> bool) (a : list X) (b : list Y) : bool :=
@@ -193,18 +225,34 @@ Definition hobs_matches (r : option (res (list (option Q)))) (o : hobs) : bool :
   | Some (Err ERuntime), HUnbound => true
   | _, _ => false
   end.
-Inductive qop := QCall (r : nat) (alias : bool) (T : Q) | QF (r : nat) (T : Q) | QSet (r : nat) (v : vec).
+Inductive qop := QCall (r : nat) (alias : bool) (T : Q) | QF (r : nat) (T : Q) | QSet (r : nat) (v : vec)
+  | QSetRes (k : nat) (v : vec).
 Definition lift_op (o : qop) : hop (A:=option Q) :=
   match o with
   | QCall r al T => HCall r al (Some T)
   | QF r T => HF r (Some T)
   | QSet r v => HSet r (some_vec v)
+  | QSetRes k v => HSetRes k (some_vec v)
   end.
 Definition chk_hist {I} (f : wfun (A:=option Q) (I:=I)) (a : gargs (A:=option Q) (I:=I)) (arrays : list vec)
-    (ops : list qop) (outs : list hobs) (arrays_after : list vec) (gpsis_after : list vec) (any_zerodiv : bool) : bool :=
-  let '(s, r) := run_hist f (mkH (map some_vec arrays) a) (map lift_op ops) in
+    (ops : list qop) (outs : list hobs) (arrays_after results_after : list vec) (gpsis_after : list vec)
+    (any_zerodiv : bool) : bool :=
+  let '(s, r) := run_hist f (mkH (map some_vec arrays) [] a) (map lift_op ops) in
   list_eqb2 hobs_matches r outs &&
-  (any_zerodiv || (list_eqb2 ov_eqb (h_arrays s) arrays_after && om_eqb (a_gpsis (h_args s)) gpsis_after)).
+  (any_zerodiv || (list_eqb2 ov_eqb (h_arrays s) arrays_after && list_eqb2 ov_eqb (h_results s) results_after &&
+                   om_eqb (a_gpsis (h_args s)) gpsis_after)).
+(* ideal object: outputs (arrays of ones / scalar one / nothing) and the results the caller holds *)
+Inductive qiop := QICall (n : nat) | QIF | QISetRes (k : nat) (v : vec).
+Definition lift_iop (o : qiop) : iop (A:=Q) :=
+  match o with QICall n => ICall n | QIF => IF_ | QISetRes k v => ISetRes k v end.
+Inductive iobs := IONone | IOArr (v : vec) | IOScalar (v : Q).
+Definition iobs_matches (r : option (fval (A:=Q))) (o : iobs) : bool :=
+  match r, o with
+  | None, IONone => true
+  | Some (FArray g), IOArr v => veqb g v
+  | Some (FScalar g), IOScalar v => qeqb g v
+  | _, _ => false
+  end.
 Definition chk_hist_unifac (s : list standin) (inter : list vec) (gpsis : list vec) (mask : list (list bool))
     (qs rs Qs : vec) (chemgroups cQfs : list vec) (index : list nat) :=
   chk_hist (gamma_UNIFAC (KS s)) (mk_oargs (some_mat inter) gpsis mask qs rs Qs chemgroups cQfs index).
@@ -235,3 +283,6 @@ Definition chk_new_kind (nindex : nat) (is_ideal : bool) : bool :=
 Definition chk_ideal (n : nat) (act : vec) (f fug fugf pcf : Q) : bool :=
   veqb (ideal_activity_call KQx (repeat 0 n)) act && qeqb (ideal_f KQx) f &&
   qeqb (ideal_fugacity_call KQx) fug && qeqb (ideal_f KQx) fugf && qeqb (mock_poyinting_call KQx) pcf.
+Definition chk_ideal_hist (ops : list qiop) (outs : list iobs) (results_after : list vec) : bool :=
+  let '(r, o) := run_ideal_hist KQx [] (map lift_iop ops) in
+  list_eqb2 iobs_matches o outs && list_eqb veqb r results_after.
